@@ -80,7 +80,7 @@ class PathProxy:
 class World:
     """files + lookup + instrumentation for one execution"""
 
-    def __init__(self, d, files, collection_size=-1, fine=False):
+    def __init__(self, d, files, collection_size=-1, fine=False, fs_checks=True):
         from mako.lookup import TemplateLookup
 
         self.root = os.path.join(d, "root%d" % next(_k))
@@ -95,7 +95,7 @@ class World:
         # every lock the lookup creates through threading.Lock(), now or later, is a cooperative lock of the scheduler
         # (the harness does not plant its own lock: how and when the lookup creates its lock is part of what is checked)
         with self.lock_patch():
-            self.lookup = TemplateLookup(directories=[self.root], collection_size=collection_size, filesystem_checks=True)
+            self.lookup = TemplateLookup(directories=[self.root], collection_size=collection_size, filesystem_checks=fs_checks)
 
     def path(self, u):
         return os.path.join(self.root, u.lstrip("/"))
@@ -168,7 +168,9 @@ BROKEN = "u=%s version=@V@ ${x +* }"
 def scenario(kind, nthreads, variant):
     """-> dict(files, collection_size, ops per thread); op = ("get", uri) | ("modget", uri) | ("render", uri, x)"""
     if kind == "first-load-same":
-        return {"files": {"/a.html": BODY % "a"}, "ops": [[("get", "/a.html")] for _ in range(nthreads)], "preload": []}
+        # (odd variants: a lookup that does not check the file system - one construction and one object all the same)
+        return {"files": {"/a.html": BODY % "a"}, "ops": [[("get", "/a.html")] for _ in range(nthreads)], "preload": [],
+                "fs_checks": variant % 2 == 0}
     if kind == "different-uris":
         return {"files": {"/a.html": BODY % "a", "/b.html": BODY % "b"},
                 "ops": [[("get", "/a.html"), ("get", "/b.html")][:: (1 if i % 2 == 0 else -1)] for i in range(nthreads)], "preload": []}
@@ -195,7 +197,7 @@ def execute(case, chooser, d, fine):
     from mako import exceptions as mexc
 
     sc = scenario(case["kind"], case["threads"], case["variant"])
-    w = World(d, sc["files"], collection_size=sc.get("collection_size", -1))
+    w = World(d, sc["files"], collection_size=sc.get("collection_size", -1), fs_checks=sc.get("fs_checks", True))
     trace = None
     if fine:
         import mako.lookup
@@ -536,6 +538,14 @@ def _bounded_render_run(chooser, ev, fails, tag, fresh, sref):
             f = Failure(case, "thread %d rendered %r through a bounded lookup shared with another rendering thread, %r alone (%d preemptions)"
                         % (i, res.get(i), solo[i], sch.preemptions), "bounded-render-differs-from-solo")
             fails.setdefault(f.key, f)
+    # at quiescence both bounded containers of the lookup are within their bound (capacity + threshold share)
+    for name in ("_collection", "_uri_cache"):
+        c = getattr(lk, name)
+        bound = c.capacity + c.capacity * c.threshold
+        if len(c) > bound:
+            f = Failure(case, "after both threads finished, lookup.%s holds %d entries; a lookup of collection_size=%d keeps at most %d"
+                        % (name, len(c), c.capacity, bound), "bounded-render-over-bound")
+            fails.setdefault(f.key, f)
     ev.case(key=["bounded-render", tag], nontrivial=sch.preemptions >= 1, labels=("bounded-render-sweep",))
     return len(sch.choices)
 
@@ -756,7 +766,7 @@ def run(ctx):
                                   for threads in (2, 3) for variant in range(6 if kind == "modify-race" else 2)
                                   for first in range(threads)])
     s2 = ctx.pick(4, 1)
-    ctx.pmap(shard_lookup_sweep2, [("first-load-same", 0, list(range(i, 140, 16)), 1) for i in range(16)]
+    ctx.pmap(shard_lookup_sweep2, [("first-load-same", v, list(range(i, 140, 16)), 1 + v) for v in (0, 1) for i in range(16)]
              + [("modify-race", v, list(range(i, 260, 16 * s2)), s2 + 1) for v in (0, 3) for i in range(16)])
     # quick: every third k1 (offset by the seed), every fourth k2
     q1, q2 = ctx.pick(3, 1), ctx.pick(4, 1)
